@@ -40,6 +40,8 @@ struct Frame {
     uint64_t gseq = 0;
     int nested = 0;        // number of callback frames opened inside (for api frames)
     bool touched_target = false;   // a nested frame operated on the target
+    bool had_ctx_at_entry = false; // context model when the call was entered
+    int ctx_gen_at_entry = 0;
 };
 
 struct SubM {
@@ -243,6 +245,7 @@ struct World {
     bool quiescent_real = false;   // the current quiescent point is a real poll (not the end of the start pass)
     bool c07_looping_at_entry = false;
     std::map<int, int> c07_active_before;
+    std::map<int, int> c07_edges_before;
     std::vector<AutoReg> autoclose_regs;
 };
 extern World *W;
